@@ -50,6 +50,7 @@ func runC09(p *Prog, r *Report) {
 	if !e.ok() {
 		return
 	}
+	extractorLoopRule(p, r, e, "D3-surfaced")
 	c09Fatal(p, r, e)
 	c09SecondCall(p, r, e)
 	c09Surfaced(p, r, e)
